@@ -1,8 +1,12 @@
 -- Root of the `Sonic` library: generated tables, specs, models, proofs, property theorems.
 import Sonic.Gen.Tables
 import Sonic.Driver
+import Sonic.Props.C01
+import Sonic.Props.C02
+import Sonic.Props.C03
 import Sonic.Props.C05
 import Sonic.Props.C06
+import Sonic.Props.C07
 import Sonic.Props.C08
 import Sonic.Props.C09
 import Sonic.Props.C10
